@@ -115,7 +115,7 @@ def concrete_check(native, inputs, shape):
     lengths, st = shape['lengths'], shape['strategy']
     total = sum(lengths)
     seeds = [inputs.get('seed')] if inputs.get('has_seed') else [None]
-    if st == 'Weighted' and inputs.get('has_seed'):
+    if st == 'Weighted':
         seeds += list(range(0, 40))   # all-streams model: look for a concrete stream that shows the failure
     failed = []
     for sd in seeds:
